@@ -7,10 +7,11 @@ try:
     NA_REASON = json.load(open("/verif/not_applicable.json"))
 except FileNotFoundError:
     pass
+CLAIMED = set(open("/verif/claimed.txt").read().split())  # properties whose harness is finished and committed
 checks, na = [], []
 for pid in ALL:
     path = f"/verif/harness/{pid.lower()}.py"
-    if not os.path.exists(path) or pid in NA_REASON:
+    if not os.path.exists(path) or pid in NA_REASON or pid not in CLAIMED:
         na.append({"property_id": pid, "reason": NA_REASON.get(pid, "check not built yet in this round (solver-based harness pending); nothing is claimed")})
         continue
     h = importlib.import_module(f"harness.{pid.lower()}")
